@@ -2,6 +2,7 @@ mod entity;
 mod gen_serve;
 mod histories;
 mod dir_engine;
+mod file_engine;
 mod gen_stream;
 mod negot;
 mod stream_engine;
@@ -121,6 +122,30 @@ fn main() {
                         writeln!(cases, "{}", negot::case_line(&id, &c)).unwrap();
                         writeln!(meta, "{}\t{}\t", id, c.class.replace('\t', " ").replace('\n', " ")).unwrap();
                     });
+                }
+                "C18" => {
+                    drop(emit_serve);
+                    let rt = tokio::runtime::Builder::new_multi_thread().worker_threads(2).enable_all().build().unwrap();
+                    let tmp = tempfile::tempdir().unwrap();
+                    let mut k = 0u64;
+                    file_engine::gen_c18(&mut rng, thorough, &mut |c: file_engine::FileCase| {
+                        let id = format!("{}-{}", prop, k);
+                        k += 1;
+                        let mut checks = vec![];
+                        let line = file_engine::run(&rt, tmp.path(), &c, &mut checks);
+                        writeln!(cases, "file {} {}", id, line).unwrap();
+                        writeln!(meta, "{}\t{}\t{}", id, c.class, checks.join(",")).unwrap();
+                    });
+                    // validators across instances and the entity through serve(): harness-level checks
+                    let mut checks = file_engine::validator_checks(tmp.path());
+                    checks.extend(file_engine::serve_checks(&rt, tmp.path()));
+                    let id = format!("{}-{}", prop, k);
+                    let c = file_engine::FileCase { kind: 0, size: 5, a: 1, e: 4, truncs: vec![], class: "H:validators-and-serve".into() };
+                    let mut c2 = vec![];
+                    let line = file_engine::run(&rt, tmp.path(), &c, &mut c2);
+                    checks.extend(c2);
+                    writeln!(cases, "file {} {}", id, line).unwrap();
+                    writeln!(meta, "{}\t{}\t{}", id, c.class, checks.join(",")).unwrap();
                 }
                 "C19" => {
                     drop(emit_serve);
